@@ -65,4 +65,7 @@ def groups(tier, seed):
     # the block-recursive PLE is selected by the cache-derived cutoff: its compression step under the stage contract (whole-word regime)
     from checks import C13, carriers
     gs += carriers.pick(C13.compress_groups(tier), ".196x258.", ".80x128.", prop="C12")
+    # the pivot-bit read of the multi-table row update for every table parameter k up to 64 (cut-point obligation, k symbolic)
+    from checks import alg
+    gs += alg.prows_cut_groups(tier, props=("C12", "C02", "C11"))
     return with_canaries(gs)
